@@ -18,6 +18,7 @@ import collections
 import itertools
 import json
 import math
+import re
 import warnings
 from fractions import Fraction
 
@@ -59,6 +60,9 @@ CONS = "bcdfghjklmnpqrstvwxz"
 VOCAB = ["k%s%sq" % (a, b) for a in "aeiou" for b in CONS]
 REF_SEPS = ["|", ","]          # the delimiters of the decision table
 REF_THRESH = 4                  # "min count 4 vs 5"
+# the explicit candidate formats of _is_timestamp (besides "let pandas guess")
+REF_TIME_FORMATS = ["%Y-%m-%d %H:%M:%S", "%Y-%m-%d", "%Y/%m/%d"]
+KNOWN_DATE_KEY = "date-format-inference-order-dependent"
 STYPES = {"numerical", "categorical", "text_embedded", "text_tokenized", "multicategorical",
           "sequence_numerical", "timestamp", "image_embedded", "embedding"}
 LIST_FAMS = ("emb", "seqnum", "strlist")
@@ -128,8 +132,61 @@ def gen_int(rng):
 
 def gen_bool(rng):
     if rng.chance(0.5):
-        return _rep(rng, [["b", True], ["b", False]], _counts(rng, 2))
-    return [["b", rng.chance(0.5)] for _ in range(rng.randint(1, 8))]
+        cells = _rep(rng, [["b", True], ["b", False]], _counts(rng, 2))
+    else:
+        cells = [["b", rng.chance(0.5)] for _ in range(rng.randint(1, 8))]
+    return _insert_missing(rng, cells, p=0.5)   # bools + missing: object dtype in pandas
+
+
+def date_class(s):
+    """(format pandas guesses from the string, formats under which it parses) for the date styles the
+    generator emits; plain-Python classification, compared with pandas.guess_datetime_format in run()."""
+    if re.fullmatch(r"\d{4}-\d\d-\d\d", s):
+        return "%Y-%m-%d", ["%Y-%m-%d"]
+    if re.fullmatch(r"\d{4}/\d\d/\d\d", s):
+        return "%Y/%m/%d", ["%Y/%m/%d"]
+    if re.fullmatch(r"\d{4}-\d\d-\d\d \d\d:\d\d:\d\d", s):
+        return "%Y-%m-%d %H:%M:%S", ["%Y-%m-%d %H:%M:%S"]
+    m = re.fullmatch(r"(\d\d)/(\d\d)/\d{4}", s)
+    if not m:
+        raise ValueError("unknown date style: " + s)
+    a, b = int(m.group(1)), int(m.group(2))
+    if a <= 12 and b <= 12:
+        return "%m/%d/%Y", ["%m/%d/%Y", "%d/%m/%Y"]       # ambiguous: pandas reads month first
+    if a > 12:
+        return "%d/%m/%Y", ["%d/%m/%Y"]
+    return "%m/%d/%Y", ["%m/%d/%Y"]
+
+
+def dates_explicit(cells):
+    """all date cells are written in ONE of the explicit candidate formats"""
+    ds = [date_class(c[1])[1] for c in cells if c[0] == "d"]
+    return any(all(f in a for a in ds) for f in REF_TIME_FORMATS)
+
+
+def gen_datex(rng):
+    """LOW-RATE stream for the known finding: date columns in a format pandas must guess (day first, with
+    ambiguous and unambiguous cells in different orders) or in mixed explicit formats."""
+    def dayfirst(amb):
+        d = rng.randint(1, 12) if amb else rng.randint(13, 28)
+        return "%02d/%02d/%04d" % (d, rng.randint(1, 12), rng.randint(1971, 2037))
+    if rng.chance(0.65):
+        n = rng.randint(2, 5)
+        mode = rng.pick(["mixed", "mixed", "mixed", "amb", "unamb"])
+        strs = [dayfirst(mode == "amb" or (mode == "mixed" and rng.chance(0.5))) for _ in range(n)]
+        if mode == "mixed":
+            i, j = rng.sample(range(n), 2)
+            strs[i], strs[j] = dayfirst(True), dayfirst(False)
+    else:
+        n = rng.randint(2, 4)
+        fmts = rng.sample([0, 1, 2], 2)
+        strs = [_date(rng, rng.pick(fmts)) for _ in range(n)]
+        strs[0], strs[1] = _date(rng, fmts[0]), _date(rng, fmts[1])
+        rng.shuffle(strs)
+    cells = [["d", x] for x in strs]
+    if dates_explicit(cells):
+        return gen_datex(rng)
+    return _insert_missing(rng, cells, p=0.2)
 
 
 def _date(rng, fmt):
@@ -255,7 +312,7 @@ def gen_allmissing(rng):
 def gen_mixed(rng):
     """Malformed stream (outside the property: heterogeneous columns and the two numeric/bool + missing
     ambiguities).  Run and counted, never judged by the oracle and not part of the correspondence."""
-    k = rng.randint(0, 4)
+    k = rng.pick([0, 1, 2, 4, 4])
     if k == 0:      # list and string cells mixed
         cells = gen_emb(rng) + [["s", rng.pick(VOCAB)]]
         rng.shuffle(cells)
@@ -264,10 +321,12 @@ def gen_mixed(rng):
         rng.shuffle(cells)
     elif k == 2:    # lists with mixed elements
         cells = [["l", [["s", rng.pick(VOCAB)], ["i", 1]]], ["l", [["f", 3, 2]]]]
-    elif k == 3:    # bools with a missing cell (object dtype in pandas)
-        cells = gen_bool(rng) + [_miss(rng)]
-    else:           # integral floats with a missing cell (pandas' image of an int column)
-        cells = [_fl(rng, integral=True) for _ in range(rng.randint(1, 6))] + [_miss(rng)]
+    else:           # integral floats with a missing cell (pandas' image of an int column): not judged by the
+        # oracle (the code's deliberate `has_nan and integral` rule), but part of the correspondence
+        vals = [_fl(rng, integral=True) for _ in range(rng.randint(1, 2))]
+        vals = [list(x) for x in sorted({tuple(v) for v in vals})]
+        cells = _rep(rng, vals, _counts(rng, len(vals))) + [_miss(rng)]
+        rng.shuffle(cells)
     return cells
 
 
@@ -276,6 +335,7 @@ FAMILIES = {
     "multicat": gen_multicat, "text": gen_text, "emb": gen_emb, "seqnum": gen_seqnum,
     "strlist": gen_strlist, "allmissing": gen_allmissing,
 }
+SERIES_ONLY = {"datex": gen_datex, "mixed": gen_mixed}
 FAM_WEIGHTS = [(2, "float"), (4, "int"), (1, "bool"), (2, "date"), (4, "strcat"), (5, "multicat"),
                (2, "text"), (2, "emb"), (2, "seqnum"), (2, "strlist"), (1, "allmissing")]
 
@@ -304,7 +364,7 @@ def gen_variant(rng, fam, n, perm=None):
         if rng.chance(0.7):
             rng.shuffle(perm)
     add = []
-    if fam in LIST_FAMS + STR_FAMS and rng.chance(0.6):
+    if fam in LIST_FAMS + STR_FAMS + ("bool", "int", "datex") and rng.chance(0.6):
         for _ in range(rng.randint(1, 3)):
             add.append([rng.pick([0, rng.randint(0, n)]), rng.pick(["none", "nan"])])
     m = n + len(add)
@@ -312,9 +372,9 @@ def gen_variant(rng, fam, n, perm=None):
 
 
 def gen_series_case(rng, tier, fam=None):
-    fam = fam or rng.wpick(FAM_WEIGHTS + [(0.7, "mixed")])
-    cells = gen_mixed(rng) if fam == "mixed" else FAMILIES[fam](rng)
-    sd = rng.pick(["object", "str"]) if fam in STR_FAMS else None
+    fam = fam or rng.wpick(FAM_WEIGHTS + [(0.7, "mixed"), (1.0, "datex")])
+    cells = SERIES_ONLY[fam](rng) if fam in SERIES_ONLY else FAMILIES[fam](rng)
+    sd = rng.pick(["object", "str"]) if fam in STR_FAMS + ("datex",) else None
     n = len(cells)
     vs = [gen_variant(rng, fam, n) for _ in range(rng.randint(2, 4))]
     return {"kind": "series", "family": fam, "sdtype": sd, "cells": cells, "variants": vs}
@@ -404,10 +464,11 @@ def exhaustive_small(rng):
 
 
 def generate(rng, tier):
-    n = 1100 if tier == "quick" else 16000
+    n = 900 if tier == "quick" else 16000
     cases = []
     for fam in FAMILIES:                       # every family is present in every run
         cases += [gen_series_case(rng, tier, fam) for _ in range(4)]
+    cases += [gen_series_case(rng, tier, "datex") for _ in range(4)]
     cases += [gen_df_blank_case(rng, tier) for _ in range(12)]      # always present
     for _ in range(n):
         r = rng.random()
@@ -465,6 +526,16 @@ def build_series(cells, sdtype, labels, name=None):
     return pd.Series(vals, index=idx, name=name)
 
 
+def check_date_classes(cells):
+    """the generator's date classification against pandas' own guess (modelled primitive)"""
+    from pandas.tseries.api import guess_datetime_format
+    bad = []
+    for c in cells:
+        if c[0] == "d" and guess_datetime_format(c[1]) != date_class(c[1])[0]:
+            bad.append(c[1])
+    return bad
+
+
 def observe_series(ser):
     from torch_frame.utils.infer_stype import infer_series_stype
     rec = {}
@@ -494,6 +565,9 @@ def run(case):
     logging.disable(logging.WARNING)
     if case["kind"] == "series":
         out = {"base": observe_series(build_series(case["cells"], case["sdtype"], None)), "variants": []}
+        bad = check_date_classes(case["cells"])
+        if bad:
+            out["date_class_mismatch"] = bad
         for v in case["variants"]:
             cells = variant_cells(case["cells"], v)
             out["variants"].append(observe_series(build_series(cells, case["sdtype"], v["labels"])))
@@ -560,7 +634,7 @@ def ref_infer(cells):
             return "multicategorical"
         return OUT
     if kinds == {"b"}:
-        return OUT if has_missing else "categorical"
+        return "categorical"
     if kinds <= {"i", "f"}:
         nums = [Fraction(c[1], c[2]) if c[0] == "f" else Fraction(c[1]) for c in vals]
         if "f" in kinds:
@@ -596,9 +670,14 @@ def oracle(case, obs):
         return dict(key="harness-exc", what="harness failed to run the case: " + obs["harness_exc"], tb=obs.get("tb"))
     if case["kind"] == "series":
         fam = case["family"]
+        if obs.get("date_class_mismatch"):
+            return dict(key="harness-date-class", what="pandas guesses another format than the generator's "
+                        "classification for " + str(obs["date_class_mismatch"]))
         exp = ref_infer(case["cells"])
         if exp is OUT:
             return None
+        if exp == "timestamp" and not dates_explicit(case["cells"]):
+            return oracle_guessed_dates(case, obs)
         b = obs["base"]
         if not b["ok"]:
             return dict(key=f"raised:{fam}", what=f"infer_series_stype raised {b['exc']} on a {fam} column",
@@ -640,6 +719,41 @@ def oracle(case, obs):
     if obs["items"] != exp_items:
         return dict(key="df:table", what="infer_df_stype differs from the decision table applied per column",
                     expected=exp_items, observed=obs["items"])
+    return None
+
+
+def oracle_guessed_dates(case, obs):
+    """Date columns outside the explicit candidate formats (KNOWN FINDING): every cell is a parseable date, so
+    the property says timestamp in every row order.  The code relies on pandas guessing the format from the
+    first element.  A deviation is reported under the known key iff it is of exactly that kind: the result is
+    what the SAME column gives when its cells are read as plain strings, and two runs with the same order of
+    non-missing cells agree.  Anything else is an ordinary violation."""
+    fam = case["family"]
+    as_strings = [["s", c[1]] if c[0] == "d" else c for c in case["cells"]]
+    alt = ref_infer(as_strings)
+    runs = [(case["cells"], obs["base"], None)]
+    for v, o in zip(case["variants"], obs["variants"]):
+        runs.append((variant_cells(case["cells"], v), o, v))
+    seen, deviation = {}, None
+    for cells, o, v in runs:
+        got = o["res"] if o["ok"] else "raise:" + o["exc"]
+        order = json.dumps([c for c in cells if c[0] != "m"])
+        if order in seen and seen[order] != got:
+            return dict(key=f"variant:{fam}", what=f"{fam} column: same row order of the non-missing cells, "
+                        f"results {seen[order]} and {got}", expected=seen[order], observed=got, variant=v)
+        seen[order] = got
+        if got == "timestamp":
+            continue
+        if got != alt:
+            return dict(key=f"table:{fam}:timestamp->{got}",
+                        what=f"{fam} column of dates: infer_series_stype returned {got} (neither timestamp nor "
+                             f"the string reading {alt})", expected="timestamp", observed=got)
+        deviation = deviation or (cells, got)
+    if deviation:
+        return dict(key=KNOWN_DATE_KEY,
+                    what=f"date column in a format pandas must guess / in mixed formats: {deviation[1]} in the row "
+                         f"order {[c[1] for c in deviation[0] if c[0] != 'm']}, every cell parses as a date",
+                    expected="timestamp in every row order", observed=sorted(set(seen.values())))
     return None
 
 
@@ -737,6 +851,16 @@ def stats(cases, obss):
             d["string_dtypes"][c["sdtype"]] = d["string_dtypes"].get(c["sdtype"], 0) + 1
         if ref_infer(c["cells"]) is OUT:
             d["outside_property"] += 1
+        kinds_ = {x[0] for x in c["cells"]}
+        if kinds_ == {"b", "m"}:
+            d["bool_with_missing"] = d.get("bool_with_missing", 0) + 1
+        if kinds_ == {"i", "m"}:
+            d["int_with_missing"] = d.get("int_with_missing", 0) + 1
+        if c["family"] == "datex":
+            res = {o["base"].get("res")} | {v.get("res") for v in o["variants"]}
+            d["guessed_date_columns"] = d.get("guessed_date_columns", 0) + 1
+            if len(res) > 1:
+                d["guessed_date_columns_order_dependent"] = d.get("guessed_date_columns_order_dependent", 0) + 1
         mm, tm = _min_mults(c["cells"])
         if c["family"] in ("int", "strcat", "multicat"):
             d["min_multiplicity"][mm] = d["min_multiplicity"].get(mm, 0) + 1
@@ -752,6 +876,48 @@ def stats(cases, obss):
             if vc and vc[0][0] == "m":
                 d["missing_first"] += 1
     return d
+
+
+def sanity(cases, obss):
+    """Fail-closed distribution check: a run that does not cover the decision table, both sides of the
+    threshold, the variant kinds and the frame-level cases must not report green."""
+    d = stats(cases, obss)
+    probs = []
+    for fam in list(FAMILIES) + ["datex"]:
+        if d["families"].get(fam, 0) == 0:
+            probs.append(f"family {fam} never drawn")
+    for r in ("numerical", "categorical", "timestamp", "text_embedded", "multicategorical", "embedding",
+              "sequence_numerical", "None"):
+        if d["results"].get(r, 0) == 0:
+            probs.append(f"result {r} never observed")
+    for sd in ("object", "str"):
+        if d["string_dtypes"].get(sd, 0) == 0:
+            probs.append(f"string dtype {sd} never drawn")
+    for lab in ("default", "offset", "perm", "string", "dup"):
+        if d["labelings"].get(lab, 0) == 0:
+            probs.append(f"index labeling {lab} never drawn")
+    for k in ("permuted", "labels", "missing"):
+        if d["variant_kinds"].get(k, 0) == 0:
+            probs.append(f"variant kind {k} never drawn")
+    for m in (4, 5):
+        if d["min_multiplicity"].get(m, 0) == 0:
+            probs.append(f"no int/string column whose rarest value occurs {m} times")
+        if d["token_min_multiplicity"].get(m, 0) == 0:
+            probs.append(f"no token column whose rarest token occurs {m} times")
+        if d.get("df_blank_int_min_multiplicity", {}).get(m, 0) == 0:
+            probs.append(f"no frame with blank rows and an integer-coded column of min multiplicity {m}")
+    if d["missing_first"] == 0:
+        probs.append("no variant with a leading missing cell")
+    if d.get("bool_with_missing", 0) == 0 or d.get("int_with_missing", 0) == 0:
+        probs.append("no bool / int column with a missing cell")
+    if d["df_cases"] == 0 or d.get("df_single_column_blank", 0) == 0 or d["df_skipped_columns"] == 0:
+        probs.append("frame-level cases degenerate (none / no single-column blank-row frame / no skipped column)")
+    if d["raised"] > 0.05 * max(1, d["total"]):
+        probs.append(f"{d['raised']} of {d['total']} columns make inference raise")
+    series = max(1, d["total"] - d["df_cases"])
+    if d["outside_property"] + d.get("guessed_date_columns", 0) > 0.15 * series:
+        probs.append("the unjudged / known-finding streams are no longer low-rate")
+    return probs
 
 
 def extra(tier, rng):
@@ -804,7 +970,8 @@ def coq_cell(c):
     if t == "s":
         return f"Str {C.cstr(c[1])}"
     if t == "d":
-        return f"DateStr {C.cstr(c[1])}"
+        g, acc = date_class(c[1])
+        return f"DateStr {C.cstr(g)} {C.clist(acc, C.cstr)} {C.cstr(c[1])}"
     if t == "l":
         return f"LList {C.clist(c[1], coq_elem)}"
     return "Missing"
@@ -820,7 +987,8 @@ def coq_outcome(o):
 
 
 def _in_model_domain(cells):
-    return ref_infer(cells) is not OUT
+    kinds = {c[0] for c in cells if c[0] != "m"}
+    return ref_infer(cells) is not OUT or kinds == {"f"}      # integral floats + NaN: modelled, not judged
 
 
 def coq_series_term(cells, o):
